@@ -4,6 +4,8 @@ import DryocVerif.Proofs.SecretStreamExtra
 import DryocVerif.Proofs.Inst
 import DryocVerif.Proofs.RawExtra
 import DryocVerif.Proofs.StreamPushRawExtra
+import DryocVerif.Gen.Stream
+import DryocVerif.Proofs.GenStream
 /-
 C03 — secretstream: push/pull round trip with state lockstep through every rekey branch,
 rejected pulls leave everything untouched, counters never repeat inside a key epoch,
@@ -25,10 +27,14 @@ histories).  The theorems below are about the model (and, through `C04.pushRaw_e
 `C04.pullRaw_eq_pull`, about the statement-by-statement transcription of the Rust); the primitives
 ChaCha20 / HChaCha20 / Poly1305 are parameters here and are tied to their RFC specs in C07 / C01.
 
-SIZE LIMIT.  `push` / `pull` / `objPush` / `objPull` are total models without the ChaCha20 key-stream limit;
-the Rust code panics for the 64 message lengths `64·(2^32 − 3) < len ≤ 64·(2^32 − 2)` (section 14).  Theorems
-that speak of "any message" are about the total model; the `…Checked` / `…Raw` theorems of section 14 carry
-the length hypothesis under which they are theorems about the code.
+SIZE LIMIT.  `push` / `pull` / `objPush` / `objPull` are total models without a length limit; the Rust code
+returns `Err` for messages of more than `KEYSTREAM_MESSAGEBYTES_MAX = 64·(2^32 − 3)` bytes (E16, fixed: before the
+fix it compared with `MESSAGEBYTES_MAX = 64·(2^32 − 2)` and PANICKED for the 64 message lengths in between —
+demonstrated on the real code with aliased 256 GiB buffers, harness op `stream_huge`; the `…Old16` counter-models
+keep that behaviour, section 14).  Theorems that speak of "any message" are about the total model; the
+`…Checked` / `…Raw` theorems of section 14 carry the length hypothesis under which they are theorems about the
+code.  KNOWN FINDING F-C03-len: libsodium accepts the 64 lengths up to `MESSAGEBYTES_MAX`, dryoc (fixed) does
+not — `libsodium_accepts_more`: lock-step with libsodium holds for messages of at most `64·(2^32 − 3)` bytes only.
 -/
 namespace DryocVerif.Properties.C03
 open DryocVerif DryocVerif.Model.Utils DryocVerif.Model.SecretStream
@@ -58,8 +64,8 @@ theorem pull_push (P : Prims) (hP : WF P) (s : State) (m ad : Bytes) (tag : UInt
 /-- The guard-free model function `push` (the Rust function WITHOUT its `MESSAGEBYTES_MAX` comparison)
 always succeeds on a buffer of the right size, with a ciphertext 17 bytes longer.  For the Rust function
 itself this holds only for messages of at most `STREAM_BODY_MAX` = 64·(2^32 − 3) = 274877906752 bytes: above
-that it panics (64 lengths) or returns `Err` — see `pushChecked_ok`, `pushChecked_ok_iff`,
-`push_panics_near_max` and `pushChecked_too_long` in section 14. -/
+that it returns `Err` (before fix E16: it panicked for 64 lengths) — see `pushChecked_ok`, `pushChecked_ok_iff`,
+`push_err_near_max`, `pushChecked_too_long` and, for the pre-fix code, `push_panics_near_max` in section 14. -/
 theorem push_ok (P : Prims) (hP : WF P) (s : State) (m ad : Bytes) (tag : UInt8) :
     ∃ c s', push P s (m.length + 17) m ad tag = .ok (c, s') ∧ c.length = m.length + 17 := by
   have h := Proofs.SecretStream.push_eq P s m ad tag
@@ -151,7 +157,8 @@ or by counter wrap): starting from equal states, the pull side accepts everythin
 pushed `(message, tag)` list, and ends in the same state as the push side; nothing of the history is
 dropped on the wire.  This is a theorem about the TOTAL MODEL (`objPush` / `objPull`), which has no size
 limit; for the code as written it holds for messages of at most `STREAM_BODY_MAX` = 64·(2^32 − 3) bytes each —
-`historyChecked_lockstep` (section 14) — and fails above (`historyChecked_breaks_near_max`). -/
+`historyChecked_lockstep` (section 14) — and fails above (`historyChecked_breaks_near_max`: the code returns `Err`
+where the total model, and libsodium for 64 of those lengths, goes on). -/
 theorem history_lockstep (P : Prims) (hP : WF P) (ops : List Op) (s : State) :
     runPull P s (runPush P s ops).2 = some ((runPush P s ops).1, sent ops) ∧
     (runPush P s ops).2.length = ops.length := by
@@ -762,53 +769,62 @@ theorem swap_delivery (P : Prims) (hP : WF P) (s0 : State)
   rw [hst]
   exact pull_push P hP s0 m1 ad1 t1 c1 s1 h1 buf1 tagv1 hb1
 
-/-! ### 14. the `MESSAGEBYTES_MAX` guards of the Rust functions
+/-! ### 14. the length guards of the Rust functions
 
-`push` / `pull` of the model omit the comparisons with
-`CRYPTO_SECRETSTREAM_XCHACHA20POLY1305_MESSAGEBYTES_MAX`; `pushChecked` / `pullChecked` have them.  Below
-the bound they are the same functions, so every theorem above transfers; above it the Rust returns `Err`.
+`push` / `pull` of the model omit the comparisons with the maximal message length; `pushChecked` / `pullChecked`
+have them.  Below the bound they are the same functions, so every theorem above transfers; above it the Rust
+returns `Err`.
 
-Second review round: the guards are NOT the whole story.  The ChaCha20 crate (chacha20 0.9.1 / cipher 0.4.4)
-hands out `u32::MAX − 2` blocks after `seek(128)`, i.e. `STREAM_BODY_MAX = 64·(2^32 − 3)` bytes, 64 fewer than
-`MESSAGEBYTES_MAX`; in between `apply_keystream` panics.  `pushChecked` / `pullChecked` do not model that;
-`pushRaw` / `pullRaw` / `objPushRaw` / `objPullCode` (`Model/SecretStreamRaw.lean`) do.  `pushChecked_ok`,
-`pushChecked_ok_iff`, `push_panics_near_max`, `historyChecked_lockstep` below are stated for them. -/
+E16 (fixed).  The ChaCha20 crate (chacha20 0.9.1 / cipher 0.4.4) hands out `u32::MAX − 2` blocks after `seek(128)`,
+i.e. `STREAM_BODY_MAX = 64·(2^32 − 3)` bytes, 64 fewer than the public constant
+`CRYPTO_SECRETSTREAM_XCHACHA20POLY1305_MESSAGEBYTES_MAX`.  The source used to compare with that constant
+(`push`: `message.len()`, `pull`: `ciphertext.len()`); in between `apply_keystream` panicked (demonstrated on the real
+code, harness op `stream_huge`).  Now both compare the MESSAGE length with `KEYSTREAM_MESSAGEBYTES_MAX =
+MESSAGEBYTES_MAX − 64 = STREAM_BODY_MAX`.  `pushChecked` / `pullChecked` carry the fixed guards and — since the guard is
+the crate's limit — agree with the statement-by-statement `pushRaw` / `pullRaw` / `objPushRaw` / `objPullCode`
+(`Model/SecretStreamRaw.lean`) on every input (`C04.pullRaw_eq_pullChecked`, `C04.pushRaw_eq_pushChecked`).  The
+`…Old16` functions (`pushCheckedOld16`, `pullCheckedOld16`, `pushRawOld16`, …) are the code before the fix;
+`push_panics_near_max`, `pushed_but_not_pullable`, `pushed_but_not_pullable_not_pushable` are about them. -/
 
-/-- the constant: `min(2^64 − 1 − 17, 64·(2^32 − 2))` = 274877906816 (64-bit target) -/
+/-- the public constant: `min(2^64 − 1 − 17, 64·(2^32 − 2))` = 274877906816 (64-bit target) -/
 theorem MESSAGEBYTES_MAX_eq : MESSAGEBYTES_MAX = 274877906816 :=
   Proofs.SecretStream.MESSAGEBYTES_MAX_eq
 
+/-- the constant the guards compare with since fix E16: `MESSAGEBYTES_MAX − 64` = 274877906752 -/
+theorem KEYSTREAM_MESSAGEBYTES_MAX_val : KEYSTREAM_MESSAGEBYTES_MAX = 274877906752 :=
+  Proofs.SecretStream.KEYSTREAM_MESSAGEBYTES_MAX_val
+
 /-- for messages within the bound the guarded push is the model's `push` -/
 theorem pushChecked_eq_push (P : Prims) (s : State) (ctLen : Nat) (m ad : Bytes) (tag : UInt8)
-    (h : m.length ≤ MESSAGEBYTES_MAX) : pushChecked P s ctLen m ad tag = push P s ctLen m ad tag :=
+    (h : m.length ≤ KEYSTREAM_MESSAGEBYTES_MAX) : pushChecked P s ctLen m ad tag = push P s ctLen m ad tag :=
   Proofs.SecretStream.pushChecked_eq_push P s ctLen m ad tag h
 
 /-- a longer message is an error (state and buffer are not outputs of a failed push) -/
 theorem pushChecked_too_long (P : Prims) (s : State) (ctLen : Nat) (m ad : Bytes) (tag : UInt8)
-    (h : MESSAGEBYTES_MAX < m.length) : pushChecked P s ctLen m ad tag = .err :=
+    (h : KEYSTREAM_MESSAGEBYTES_MAX < m.length) : pushChecked P s ctLen m ad tag = .err :=
   Proofs.SecretStream.pushChecked_too_long P s ctLen m ad tag h
 
-/-- for ciphertexts within the bound the guarded pull is the model's `pull` -/
+/-- for ciphertexts whose MESSAGE part is within the bound the guarded pull is the model's `pull` -/
 theorem pullChecked_eq_pull (P : Prims) (s : State) (buf : Bytes) (tagv : UInt8) (ct ad : Bytes)
-    (h : ct.length ≤ MESSAGEBYTES_MAX) : pullChecked P s buf tagv ct ad = pull P s buf tagv ct ad :=
+    (h : ct.length ≤ KEYSTREAM_MESSAGEBYTES_MAX + 17) :
+    pullChecked P s buf tagv ct ad = pull P s buf tagv ct ad :=
   Proofs.SecretStream.pullChecked_eq_pull P s buf tagv ct ad h
 
 /-- a longer ciphertext is an error that touches nothing -/
 theorem pullChecked_too_long (P : Prims) (s : State) (buf : Bytes) (tagv : UInt8) (ct ad : Bytes)
-    (h : MESSAGEBYTES_MAX < ct.length) : pullChecked P s buf tagv ct ad = ⟨.err, buf, tagv, s⟩ :=
+    (h : KEYSTREAM_MESSAGEBYTES_MAX + 17 < ct.length) : pullChecked P s buf tagv ct ad = ⟨.err, buf, tagv, s⟩ :=
   Proofs.SecretStream.pullChecked_too_long P s buf tagv ct ad h
 
-/-- the guard-only model `pushChecked` (the `MESSAGEBYTES_MAX` comparison, but no key-stream limit) succeeds on a
-buffer of the right size for messages of at most `MESSAGEBYTES_MAX` bytes.  NOT a statement about the code
-above `STREAM_BODY_MAX`: see `pushChecked_ok`. -/
+/-- the guard-only model `pushChecked` succeeds on a buffer of the right size for messages of at most
+`KEYSTREAM_MESSAGEBYTES_MAX` bytes.  Since fix E16 this IS a statement about the code (`pushChecked_ok`). -/
 theorem pushChecked_model_ok (P : Prims) (hP : WF P) (s : State) (m ad : Bytes) (tag : UInt8)
-    (hm : m.length ≤ MESSAGEBYTES_MAX) :
+    (hm : m.length ≤ KEYSTREAM_MESSAGEBYTES_MAX) :
     ∃ c s', pushChecked P s (m.length + 17) m ad tag = .ok (c, s') ∧ c.length = m.length + 17 := by
   rw [pushChecked_eq_push P s _ m ad tag hm]
   exact push_ok P hP s m ad tag
 
 theorem pushChecked_model_ok_iff (P : Prims) (hP : WF P) (s : State) (m ad : Bytes) (tag : UInt8) :
-    (∃ c s', pushChecked P s (m.length + 17) m ad tag = .ok (c, s')) ↔ m.length ≤ MESSAGEBYTES_MAX := by
+    (∃ c s', pushChecked P s (m.length + 17) m ad tag = .ok (c, s')) ↔ m.length ≤ KEYSTREAM_MESSAGEBYTES_MAX := by
   constructor
   · rintro ⟨c, s', h⟩
     apply Classical.byContradiction
@@ -819,42 +835,73 @@ theorem pushChecked_model_ok_iff (P : Prims) (hP : WF P) (s : State) (m ad : Byt
     obtain ⟨c, s', h, _⟩ := pushChecked_model_ok P hP s m ad tag hm
     exact ⟨c, s', h⟩
 
-/-- the two bounds: the crate's key-stream limit is one 64-byte block below the constant the source checks -/
+/-- the two bounds: the crate's key-stream limit is one 64-byte block below the public constant -/
 theorem STREAM_BODY_MAX_eq : STREAM_BODY_MAX = 274877906752 ∧ MESSAGEBYTES_MAX = STREAM_BODY_MAX + 64 ∧
     MESSAGEBYTES_MAX_RAW = MESSAGEBYTES_MAX := by decide
+
+/-- … and the constant of the fixed source is the crate's limit -/
+theorem KEYSTREAM_MESSAGEBYTES_MAX_eq : KEYSTREAM_MESSAGEBYTES_MAX = STREAM_BODY_MAX :=
+  Proofs.SecretStream.KEYSTREAM_MESSAGEBYTES_MAX_eq
+
+/-- **residual difference to libsodium (known finding F-C03-len).**  libsodium's `crypto_secretstream_…_push` accepts
+every message of at most `MESSAGEBYTES_MAX = 64·(2^32 − 2)` bytes (its ChaCha20 hands out the whole 2^32-block key
+stream); dryoc (fixed, E16) returns `Err` for the 64 message lengths `STREAM_BODY_MAX < len ≤ MESSAGEBYTES_MAX` in
+between, because the ChaCha20 crate it uses stops one block earlier (`pushRaw_err_near_max`; before the fix it
+panicked there).  So "every ciphertext and both states equal those of libsodium" can hold for messages of at most
+`STREAM_BODY_MAX = 64·(2^32 − 3)` bytes only; this theorem is the arithmetic of that statement, the behaviour of
+libsodium itself is not modelled. -/
+theorem libsodium_accepts_more :
+    STREAM_BODY_MAX < MESSAGEBYTES_MAX_RAW ∧ MESSAGEBYTES_MAX_RAW - STREAM_BODY_MAX = 64 := by decide
 
 /-- `push_ok`, honestly (corrected after the second review): the Rust `push`, statement by statement
 (`pushRaw`, any content of the caller's ciphertext buffer `buf` of the right size), succeeds for every message
 of at most `STREAM_BODY_MAX = 64·(2^32 − 3)` bytes, with a ciphertext 17 bytes longer, and agrees with both
-models.  (The earlier version claimed this up to `MESSAGEBYTES_MAX`; the ChaCha20 crate refuses the last
-block of the key stream.) -/
+models.  Since fix E16 the hypothesis is exactly "the length guard of `push` lets the message through"
+(`pushChecked_ok_iff`). -/
 theorem pushChecked_ok (P : Prims) (hP : WF P) (s : State) (m ad : Bytes) (tag : UInt8)
     (hm : m.length ≤ STREAM_BODY_MAX) (buf : Bytes) (hb : buf.length = m.length + 17) :
     ∃ c s', pushRaw P s buf m ad tag = .ok (c, s') ∧
       pushChecked P s (m.length + 17) m ad tag = .ok (c, s') ∧
       push P s (m.length + 17) m ad tag = .ok (c, s') ∧ c.length = m.length + 17 := by
   obtain ⟨c, s', h, hl⟩ := push_ok P hP s m ad tag
-  have hB := STREAM_BODY_MAX_eq
-  have hM := MESSAGEBYTES_MAX_eq
+  have hK := KEYSTREAM_MESSAGEBYTES_MAX_eq
   refine ⟨c, s', ?_, ?_, h, hl⟩
   · rw [Proofs.SecretStream.pushRaw_eq_push P hP s buf m ad tag hm, hb]; exact h
   · rw [pushChecked_eq_push P s _ m ad tag (by omega)]; exact h
 
-/-- … and exactly for those: on a buffer of the right size the Rust `push` returns `Ok` iff the message has at
-most `STREAM_BODY_MAX` bytes (above: a panic for 64 lengths, `push_panics_near_max`, then `Err`) -/
+/-- … and exactly for those: on a buffer of the right size the Rust `push` — statement by statement, and the
+guard-only model alike — returns `Ok` iff the message has at most `STREAM_BODY_MAX` bytes (above: `Err`,
+`push_err_near_max`) -/
 theorem pushChecked_ok_iff (P : Prims) (hP : WF P) (s : State) (m ad : Bytes) (tag : UInt8)
     (buf : Bytes) (hb : buf.length = m.length + 17) :
     (∃ c s', pushRaw P s buf m ad tag = .ok (c, s')) ↔ m.length ≤ STREAM_BODY_MAX :=
   Proofs.SecretStream.pushRaw_ok_iff P hP s buf m ad tag hb
 
-/-- the 64 message lengths between the crate's limit and the source's guard: the Rust `push` panics
-(`C04.pushRaw_panics_near_max`; latent defect at ≈ 256 GiB, not demonstrable on this machine) -/
+/-- the same for the guard-only model: since fix E16 its bound is the bound of the code -/
+theorem pushChecked_ok_iff_model (P : Prims) (hP : WF P) (s : State) (m ad : Bytes) (tag : UInt8) :
+    (∃ c s', pushChecked P s (m.length + 17) m ad tag = .ok (c, s')) ↔ m.length ≤ STREAM_BODY_MAX := by
+  rw [pushChecked_model_ok_iff P hP, KEYSTREAM_MESSAGEBYTES_MAX_eq]
+
+/-- **fixed code (E16)**: a message above the limit (any message a slice can hold) is an `Err` of the classic
+`push`, of `DryocStream::push` and of the guard-only model; nothing is written, the state is not touched -/
+theorem push_err_near_max (P : Prims) (s : State) (m ad : Bytes) (tag : UInt8) (buf : Bytes)
+    (hm : m.length + 17 < 2 ^ 64) (h1 : STREAM_BODY_MAX < m.length) :
+    pushRaw P s buf m ad tag = .err ∧ objPushRaw P s m ad tag = .err ∧
+      pushChecked P s buf.length m ad tag = .err :=
+  ⟨Proofs.SecretStream.pushRaw_err_near_max P s buf m ad tag hm h1,
+    Proofs.SecretStream.objPushRaw_err_near_max P s m ad tag hm h1,
+    pushChecked_too_long P s _ m ad tag (by rw [KEYSTREAM_MESSAGEBYTES_MAX_eq]; exact h1)⟩
+
+/-- **pre-fix code (E16), about the counter-models `pushRawOld16` / `objPushRawOld16`** (name kept): for the 64
+message lengths between the crate's limit and the old guard of the source the Rust `push` PANICKED
+(`C04.pushRaw_panics_near_max`; demonstrated on the real code with aliased 256 GiB buffers, harness op
+`stream_huge`).  The current code returns `Err` there: `push_err_near_max`. -/
 theorem push_panics_near_max (P : Prims) (s : State) (m ad : Bytes) (tag : UInt8) (buf : Bytes)
     (hb : buf.length = m.length + 17) (h1 : STREAM_BODY_MAX < m.length) (h2 : m.length ≤ MESSAGEBYTES_MAX) :
-    pushRaw P s buf m ad tag = .panic ∧ objPushRaw P s m ad tag = .panic := by
+    pushRawOld16 P s buf m ad tag = .panic ∧ objPushRawOld16 P s m ad tag = .panic := by
   have hM : MESSAGEBYTES_MAX_RAW = MESSAGEBYTES_MAX := by decide
-  exact ⟨Proofs.SecretStream.pushRaw_panics_near_max P s buf m ad tag hb h1 (by omega),
-    Proofs.SecretStream.objPushRaw_panics_near_max P s m ad tag h1 (by omega)⟩
+  exact ⟨Proofs.SecretStream.pushRawOld16_panics_near_max P s buf m ad tag hb h1 (by omega),
+    Proofs.SecretStream.objPushRawOld16_panics_near_max P s m ad tag h1 (by omega)⟩
 
 /-- a rejected guarded pull leaves state, message buffer and tag variable as they were -/
 theorem failed_pullChecked_preserves (P : Prims) (s : State) (m : Bytes) (tagv : UInt8) (ct ad : Bytes)
@@ -865,35 +912,56 @@ theorem failed_pullChecked_preserves (P : Prims) (s : State) (m : Bytes) (tagv :
   · rw [e] at h ⊢; exact failed_pull_preserves P s m tagv ct ad h
   · rw [e]; exact ⟨rfl, rfl, rfl⟩
 
-/-- round trip for the guarded functions: holds when the CIPHERTEXT (message + 17 bytes) is within the bound -/
+/-- round trip for the guarded functions: whatever `pushChecked` accepted, `pullChecked` returns.  Since fix E16
+no extra size hypothesis is needed (before, the CIPHERTEXT — message + 17 bytes — had to be within the bound
+`pull` checked: `pushed_but_not_pullable`). -/
 theorem pullChecked_pushChecked (P : Prims) (hP : WF P) (s : State) (m ad : Bytes) (tag : UInt8) (c : Bytes)
     (s' : State) (h : pushChecked P s (m.length + 17) m ad tag = .ok (c, s'))
-    (hm : m.length + 17 ≤ MESSAGEBYTES_MAX)
     (buf : Bytes) (tagv : UInt8) (hb : m.length ≤ buf.length) :
     pullChecked P s buf tagv c ad = ⟨.ok m.length, m ++ buf.drop m.length, tag, s'⟩ := by
-  rw [pushChecked_eq_push P s _ m ad tag (by omega)] at h
+  have hm : m.length ≤ KEYSTREAM_MESSAGEBYTES_MAX := (pushChecked_model_ok_iff P hP s m ad tag).mp ⟨c, s', h⟩
+  rw [pushChecked_eq_push P s _ m ad tag hm] at h
   have hl := Proofs.SecretStream.push_ct_length P hP s m ad tag c s' h
   rw [pullChecked_eq_pull P s buf tagv c ad (by omega)]
   exact pull_push P hP s m ad tag c s' h buf tagv hb
 
-/-- A statement about the GUARD-ONLY models `pushChecked` / `pullChecked`: the Rust `pull` compares
-`ciphertext.len()` (not `mlen` as libsodium does) with `MESSAGEBYTES_MAX`, so in those models a message of more
-than `MESSAGEBYTES_MAX − 17` and at most `MESSAGEBYTES_MAX` bytes is pushed and its genuine ciphertext is then
-rejected by `pull`.  In the CODE this scenario does not arise: those 17 lengths lie inside the 64-length window
-in which `push` itself panics — `pushed_but_not_pullable_not_pushable` below.  What remains true of the code is
-the deviation from libsodium in the guard (`ciphertext.len()` instead of `mlen`), visible only above 256 GiB. -/
+/-- **fixed code (E16): `push` and `pull` have the same limit** — for the statement-by-statement functions: on a
+buffer of the right size `pushRaw` returns `Ok` iff the message has at most `STREAM_BODY_MAX` bytes, and the ciphertext
+of an accepted push is never rejected by a LENGTH guard of `pullRaw` (the first two conjuncts after the arrow are the
+first and third guard, the hypothesis `¬ m.length < c.length − 17` is the second, about the caller's buffer):
+`pullRaw` returns the message, the tag byte and the state `push` ended in.  The observation
+`pushed_but_not_pullable` no longer holds for the current code. -/
+theorem push_pull_same_limit (P : Prims) (hP : WF P) (s : State) (buf msg ad : Bytes) (tag : UInt8)
+    (hb : buf.length = msg.length + 17) :
+    ((∃ c s', pushRaw P s buf msg ad tag = .ok (c, s')) ↔ msg.length ≤ STREAM_BODY_MAX) ∧
+    (∀ c s', pushRaw P s buf msg ad tag = .ok (c, s') →
+      ¬ c.length < 17 ∧ ¬ c.length - 17 > STREAM_BODY_MAX ∧
+      ∀ (m : Bytes) (tagv : UInt8), ¬ m.length < c.length - 17 →
+        pullRaw P s m tagv c ad = ⟨.ok msg.length, msg ++ m.drop msg.length, tag, s'⟩) :=
+  Proofs.SecretStream.push_pull_same_limit P hP s buf msg ad tag hb
+
+/-- **pre-fix code (E16), about the GUARD-ONLY counter-models `pushCheckedOld16` / `pullCheckedOld16`** (name
+kept): the Rust `pull` before the fix compared `ciphertext.len()` (not `mlen` as libsodium does) with
+`MESSAGEBYTES_MAX`, so in those models a message of more than `MESSAGEBYTES_MAX − 17` and at most `MESSAGEBYTES_MAX`
+bytes is pushed and its genuine ciphertext is then rejected by `pull`.  In the pre-fix CODE this scenario did not
+arise: those 17 lengths lie inside the 64-length window in which `push` itself panicked —
+`pushed_but_not_pullable_not_pushable` below.  For the current code neither holds: `push_pull_same_limit`,
+`pullChecked_pushChecked`. -/
 theorem pushed_but_not_pullable (P : Prims) (hP : WF P) (s : State) (m ad : Bytes) (tag : UInt8)
     (h1 : MESSAGEBYTES_MAX < m.length + 17) (h2 : m.length ≤ MESSAGEBYTES_MAX) :
-    ∃ c s', pushChecked P s (m.length + 17) m ad tag = .ok (c, s') ∧
-      ∀ buf tagv, pullChecked P s buf tagv c ad = ⟨.err, buf, tagv, s⟩ := by
-  obtain ⟨c, s', h, hl⟩ := pushChecked_model_ok P hP s m ad tag h2
-  exact ⟨c, s', h, fun buf tagv => pullChecked_too_long P s buf tagv c ad (by omega)⟩
+    ∃ c s', pushCheckedOld16 P s (m.length + 17) m ad tag = .ok (c, s') ∧
+      ∀ buf tagv, pullCheckedOld16 P s buf tagv c ad = ⟨.err, buf, tagv, s⟩ := by
+  obtain ⟨c, s', h, hl⟩ := push_ok P hP s m ad tag
+  refine ⟨c, s', ?_, fun buf tagv =>
+    Proofs.SecretStream.pullCheckedOld16_too_long P s buf tagv c ad (by omega)⟩
+  rw [Proofs.SecretStream.pushCheckedOld16_eq_push P s _ m ad tag h2]; exact h
 
-/-- … the lengths of `pushed_but_not_pullable` are not even pushable in the code: `push` panics on them -/
+/-- pre-fix code (E16; name kept) … the lengths of `pushed_but_not_pullable` were not even pushable in the code
+before the fix: `pushRawOld16` panics on them -/
 theorem pushed_but_not_pullable_not_pushable (P : Prims) (s : State) (m ad : Bytes) (tag : UInt8) (buf : Bytes)
     (hb : buf.length = m.length + 17)
     (h1 : MESSAGEBYTES_MAX < m.length + 17) (h2 : m.length ≤ MESSAGEBYTES_MAX) :
-    pushRaw P s buf m ad tag = .panic := by
+    pushRawOld16 P s buf m ad tag = .panic := by
   have hB := STREAM_BODY_MAX_eq
   exact (push_panics_near_max P s m ad tag buf hb (by omega) h2).1
 
@@ -917,13 +985,16 @@ def runPullRaw (P : Prims) : State → List Wire → Option (State × List (Byte
     | (.ok mt, s') => (runPullRaw P s' ws).map fun r => (r.1, mt :: r.2)
     | _ => none
 
-/-- every pushed message of the history has at most `STREAM_BODY_MAX = 64·(2^32 − 3)` bytes -/
+/-- every pushed message of the history has at most `STREAM_BODY_MAX = 64·(2^32 − 3)` bytes — since fix E16:
+every push of the history passes the length guard of `DryocStream::push` (`historyChecked_sizes_iff`) -/
 def SizesOk (ops : List Op) : Prop := ∀ m ad tag, Op.push m ad tag ∈ ops → m.length ≤ STREAM_BODY_MAX
 
 /-- **`history_lockstep` for the code as written.**  For histories of any length and shape whose messages have
 at most `STREAM_BODY_MAX` bytes each: the statement-by-statement `DryocStream::push` / `pull` behave exactly as
 the total model (same wire, same final state), the pull side accepts everything, returns exactly the pushed
-`(message, tag)` list and ends in the push side's state; nothing is dropped. -/
+`(message, tag)` list and ends in the push side's state; nothing is dropped.  `SizesOk` is still needed: a push
+above the limit is an `Err` (fixed code) and ends the lock-step run — `historyChecked_breaks_near_max`; it is
+exactly the condition under which the whole history is sent — `historyChecked_sizes_iff`. -/
 theorem historyChecked_lockstep (P : Prims) (hP : WF P) (ops : List Op) (s : State) (hlen : SizesOk ops) :
     runPushRaw P s ops = runPush P s ops ∧
     runPullRaw P s (runPushRaw P s ops).2 = some ((runPushRaw P s ops).1, sent ops) ∧
@@ -951,16 +1022,71 @@ theorem historyChecked_lockstep (P : Prims) (hP : WF P) (ops : List Op) (s : Sta
       rw [← h1]
       simp [h2, h3]
 
-/-- the size hypothesis cannot be dropped: a history whose first message has a length in the 64-length window
-sends NOTHING through the code as written (the push panics), while the total model sends it -/
+/-- the statement-by-statement push side never sends more than the history -/
+theorem runPushRaw_length_le (P : Prims) (ops : List Op) (s : State) :
+    (runPushRaw P s ops).2.length ≤ ops.length := by
+  induction ops generalizing s with
+  | nil => exact Nat.le_refl _
+  | cons op ops ih =>
+    cases op with
+    | rekey =>
+      simp only [runPushRaw, List.length_cons]
+      exact Nat.succ_le_succ (ih _)
+    | push m ad tag =>
+      simp only [runPushRaw]
+      split
+      · simp only [List.length_cons]; exact Nat.succ_le_succ (ih _)
+      · simp
+
+/-- **`SizesOk` is "every push returns `Ok`"** (since fix E16 the length guard of the code IS the size condition):
+the statement-by-statement push side sends the whole history iff every message has at most `STREAM_BODY_MAX`
+bytes.  Any state, any history; a push above the limit is an `Err` and the run stops there. -/
+theorem historyChecked_sizes_iff (P : Prims) (hP : WF P) (ops : List Op) (s : State) :
+    (runPushRaw P s ops).2.length = ops.length ↔ SizesOk ops := by
+  constructor
+  · induction ops generalizing s with
+    | nil => intro _ m ad tag h; cases h
+    | cons op ops ih =>
+      cases op with
+      | rekey =>
+        intro h m ad tag hmem
+        simp only [runPushRaw, List.length_cons] at h
+        rcases List.mem_cons.mp hmem with e | e
+        · cases e
+        · exact ih (rekey P s) (by omega) m ad tag e
+      | push m0 ad0 tag0 =>
+        intro h m ad tag hmem
+        cases hr : objPushRaw P s m0 ad0 tag0 with
+        | ok r =>
+          rcases r with ⟨c, s'⟩
+          simp only [runPushRaw, hr, List.length_cons] at h
+          rcases List.mem_cons.mp hmem with e | e
+          · rw [Op.push.injEq] at e
+            rw [e.1]
+            exact (Proofs.SecretStream.objPushRaw_ok_iff P hP s m0 ad0 tag0).mp ⟨c, s', hr⟩
+          · exact ih s' (by omega) m ad tag e
+        | err => simp [runPushRaw, hr] at h
+        | panic => simp [runPushRaw, hr] at h
+  · intro h
+    exact (historyChecked_lockstep P hP ops s h).2.2
+
+/-- the size hypothesis cannot be dropped: a history whose first message is longer than `STREAM_BODY_MAX` sends
+NOTHING through the code as written (the push is an `Err`; before fix E16 it was a panic for the 64 lengths up to
+`MESSAGEBYTES_MAX` — `push_panics_near_max`), while the total model sends it (and so does libsodium for those 64
+lengths: `libsodium_accepts_more`) -/
 theorem historyChecked_breaks_near_max (P : Prims) (hP : WF P) (s : State) (m ad : Bytes) (tag : UInt8)
-    (ops : List Op) (h1 : STREAM_BODY_MAX < m.length) (h2 : m.length ≤ MESSAGEBYTES_MAX) :
+    (ops : List Op) (h1 : STREAM_BODY_MAX < m.length) :
     (runPushRaw P s (.push m ad tag :: ops)).2 = [] ∧ (runPush P s (.push m ad tag :: ops)).2 ≠ [] := by
-  have hp := (push_panics_near_max P s m ad tag (zeros (m.length + 17)) (by simp [zeros]) h1 h2).2
   obtain ⟨c, s', h, _⟩ := push_ok P hP s m ad tag
   have ho : objPush P s m ad tag = .ok (c, s') := h
   constructor
-  · simp [runPushRaw, hp]
+  · cases hr : objPushRaw P s m ad tag with
+    | ok r =>
+      rcases r with ⟨c', s''⟩
+      have := (Proofs.SecretStream.objPushRaw_ok_iff P hP s m ad tag).mp ⟨c', s'', hr⟩
+      omega
+    | err => simp [runPushRaw, hr]
+    | panic => simp [runPushRaw, hr]
   · simp [runPush, ho]
 
 /-! ### 15. non-vacuity witnesses for sections 12–14 -/
@@ -1016,22 +1142,44 @@ example : (rekey toyP toyS).k = List.replicate 32 1 ∧ (rekey toyP toyS).nonce 
   constructor <;> decide
 
 /-- `pushChecked` / `pullChecked`: both sides of the bound are inhabited (a list of any length exists) -/
-example : ∃ m : Bytes, m.length ≤ MESSAGEBYTES_MAX := ⟨[0x41], by decide⟩
-example : ∃ m : Bytes, MESSAGEBYTES_MAX < m.length := ⟨List.replicate (MESSAGEBYTES_MAX + 1) 0, by simp⟩
+example : ∃ m : Bytes, m.length ≤ KEYSTREAM_MESSAGEBYTES_MAX := ⟨[0x41], by decide⟩
+example : ∃ m : Bytes, KEYSTREAM_MESSAGEBYTES_MAX < m.length :=
+  ⟨List.replicate (KEYSTREAM_MESSAGEBYTES_MAX + 1) 0, by simp⟩
+example : ∃ ct : Bytes, KEYSTREAM_MESSAGEBYTES_MAX + 17 < ct.length :=
+  ⟨List.replicate (KEYSTREAM_MESSAGEBYTES_MAX + 18) 0, by rw [List.length_replicate]; omega⟩
+/-- `pushed_but_not_pullable` / `pushed_but_not_pullable_not_pushable` (pre-fix models): the 17 lengths exist -/
 example : ∃ m : Bytes, MESSAGEBYTES_MAX < m.length + 17 ∧ m.length ≤ MESSAGEBYTES_MAX :=
   ⟨List.replicate MESSAGEBYTES_MAX 0, by simp⟩
 
 example : pushChecked toyP toyS 18 [0x41] [0x42] 0 = push toyP toyS 18 [0x41] [0x42] 0 :=
   pushChecked_eq_push toyP toyS 18 [0x41] [0x42] 0 (by decide)
 
+/-- `pullChecked_pushChecked`: the hypothesis is satisfiable (toy instance) -/
+example : ∃ c s', pushChecked toyP toyS 18 [0x41] [0x42] 0 = .ok (c, s') := by
+  obtain ⟨c, s', h, _⟩ := pushChecked_model_ok toyP toyP_wf toyS [0x41] [0x42] 0 (by decide)
+  exact ⟨c, s', h⟩
+
 /-- `pushChecked_ok` on the toy instance: the statement-by-statement push into a buffer of garbage agrees with
 both models … -/
 example : ∃ c s', pushRaw toyP toyS (List.replicate 18 0xee) [0x41] [0x42] 0 = .ok (c, s') ∧
     push toyP toyS 18 [0x41] [0x42] 0 = .ok (c, s') := ⟨_, _, by decide, rfl⟩
 
-/-- … and the window of `push_panics_near_max` / `historyChecked_breaks_near_max` is inhabited (lengths only) -/
+/-- `push_pull_same_limit`: the hypothesis of its second half is satisfiable (toy instance), and so is the buffer
+condition -/
+example : ∃ c s', pushRaw toyP toyS (List.replicate 18 0xee) [0x41] [0x42] 0 = .ok (c, s') ∧
+    ¬ ([0] : Bytes).length < c.length - 17 := by
+  obtain ⟨c, s', h, _, _, hl⟩ :=
+    pushChecked_ok toyP toyP_wf toyS [0x41] [0x42] 0 (by decide) (List.replicate 18 0xee) (by decide)
+  exact ⟨c, s', h, by rw [hl]; decide⟩
+
+/-- … the window of `push_panics_near_max` (pre-fix models) is inhabited (lengths only) … -/
 example : ∃ m : Bytes, STREAM_BODY_MAX < m.length ∧ m.length ≤ MESSAGEBYTES_MAX :=
   ⟨List.replicate MESSAGEBYTES_MAX 0, by rw [List.length_replicate]; decide, by simp⟩
+
+/-- … and so are the hypotheses of `push_err_near_max` / `historyChecked_breaks_near_max` (lengths only) -/
+example : ∃ m : Bytes, m.length + 17 < 2 ^ 64 ∧ STREAM_BODY_MAX < m.length :=
+  ⟨List.replicate (STREAM_BODY_MAX + 1) 0, by rw [List.length_replicate]; decide,
+    by rw [List.length_replicate]; omega⟩
 
 /-- `historyChecked_lockstep`: `SizesOk` holds for the toy history, and the statement-by-statement run agrees -/
 example : SizesOk [.push [1, 2] [3] 0, .rekey, .push [] [] 2] := by
@@ -1071,5 +1219,57 @@ example : ∃ c1 s1 c2 s2, push toyPN toyS5 18 [0x41] [] 0 = .ok (c1, s1) ∧
     pull toyPN s1 [0] 0 c2 [] = ⟨.ok 1, [0x42], 0, s2⟩ :=
   ⟨_, _, _, _, rfl, rfl, by decide, by decide, by decide⟩
 
+/-! ### 16. tie to the source: the length guards and constants as translated on every run (`Gen/Stream.lean`)
+
+The size condition of section 14 (`SizesOk`, `pushChecked_ok_iff`, `push_pull_same_limit`, `libsodium_accepts_more`) is
+about the guards the SOURCE has: these are the guards and constants `tools/rs2lean.py` reads off the Rust on every run. -/
+
+/-- `push` as translated: buffer size, then `message.len() > KEYSTREAM_MESSAGEBYTES_MAX` (= `STREAM_BODY_MAX`) -/
+theorem translated_stream_push_guards (ml cl : Nat) :
+    Gen.Stream.push_guards ml cl = [decide (cl ≠ ml + 17), decide (ml > STREAM_BODY_MAX)] :=
+  Proofs.GenStream.push_guards_eq ml cl
+
+/-- `pull` as translated: the third guard compares the MESSAGE length with the same bound as `push` -/
+theorem translated_stream_pull_guards (ml cl : Nat) :
+    Gen.Stream.pull_guards ml cl =
+      [decide (cl < 17), decide (ml < cl - 17), decide (cl - 17 > STREAM_BODY_MAX)] :=
+  Proofs.GenStream.pull_guards_eq ml cl
+
+/-- the constants as translated: the guard constant is the crate's limit, the public one libsodium's (64 more:
+`libsodium_accepts_more`) -/
+theorem translated_stream_constants :
+    Gen.Stream.constants.lookup "KEYSTREAM_MESSAGEBYTES_MAX" = some STREAM_BODY_MAX ∧
+    Gen.Stream.constants.lookup "CRYPTO_SECRETSTREAM_XCHACHA20POLY1305_MESSAGEBYTES_MAX" = some MESSAGEBYTES_MAX_RAW :=
+  ⟨Proofs.GenStream.constants_eq.1, Proofs.GenStream.constants_eq.2.1⟩
+
 end DryocVerif.Properties.C03
+
+section AxiomCheck
+open DryocVerif.Properties.C03
+#print axioms pushChecked_eq_push
+#print axioms pushChecked_too_long
+#print axioms pullChecked_eq_pull
+#print axioms pullChecked_too_long
+#print axioms pushChecked_model_ok
+#print axioms pushChecked_model_ok_iff
+#print axioms KEYSTREAM_MESSAGEBYTES_MAX_eq
+#print axioms libsodium_accepts_more
+#print axioms pushChecked_ok
+#print axioms pushChecked_ok_iff
+#print axioms pushChecked_ok_iff_model
+#print axioms push_err_near_max
+#print axioms push_panics_near_max
+#print axioms failed_pullChecked_preserves
+#print axioms pullChecked_pushChecked
+#print axioms push_pull_same_limit
+#print axioms pushed_but_not_pullable
+#print axioms pushed_but_not_pullable_not_pushable
+#print axioms historyChecked_lockstep
+#print axioms runPushRaw_length_le
+#print axioms historyChecked_sizes_iff
+#print axioms historyChecked_breaks_near_max
+#print axioms translated_stream_push_guards
+#print axioms translated_stream_pull_guards
+#print axioms translated_stream_constants
+end AxiomCheck
 
